@@ -10,6 +10,7 @@
                                    only that its result is a permutation sorted by slot
    [isort] is a concrete stable insertion sort by slot used to execute the model. *)
 From GV Require Import Lib.Bytes Lib.Res Gen.Consts.
+From Coq Require Import Permutation Sorted.
 Open Scope N_scope.
 
 (* math.MaxUint32 (Go standard library constant) *)
@@ -31,6 +32,13 @@ Definition slots (n : N) : res Z :=
   | Some p => Ok p
   | None => Panic 5          (* panic("too many items") *)
   end.
+
+(* what LoadFromSlice accepts: no key longer than math.MaxUint32 ("key too large") and fewer
+   keys than the point where calcHashtableSlots panics ("too many items": floor(4n/3) needs
+   32 bits from n = 3 * 2^29 on) *)
+Definition max_items : N := 1610612736.
+Definition small (k : bytes) : Prop := len k <= max_uint32.
+Definition loadable (kk : list bytes) : Prop := Forall small kk /\ len kk < max_items.
 
 (* n copies of x, n : N *)
 Definition nrepeat {A} (x : A) (n : N) : list A := N.iter n (cons x) [].
@@ -72,6 +80,12 @@ Fixpoint insert_by_slot (e : item) (l : list item) : list item :=
 Definition isort (l : list item) : list item := fold_right insert_by_slot [] l.
 
 Variable sort : list item -> list item.
+(* the order sort.Sort(itemsBySlot) establishes *)
+Definition slot_le (a b : item) : Prop := islot a <= islot b.
+(* all that is assumed of sort.Sort: some permutation of its input, ordered by slot; the order
+   inside a run of equal slots is left open (pdqsort is not stable) *)
+Definition sort_ok : Prop :=
+  (forall l, Permutation l (sort l)) /\ (forall l, Sorted slot_le (sort l)).
 
 (* The loop of LoadFromSlice: returns the bytes appended to data, the items appended, and how
    the loop ended.  [off] = len(m.data) at this iteration. *)
@@ -219,7 +233,7 @@ Arguments mkmap {V}.
 Arguments data {V}. Arguments dcap {V}. Arguments items {V}. Arguments icap {V}.
 Arguments table {V}. Arguments tspare {V}.
 Arguments new_map {V}.
-Arguments insert_by_slot {V}. Arguments isort {V}.
+Arguments slot_le {V}. Arguments sort_ok {V}. Arguments insert_by_slot {V}. Arguments isort {V}.
 Arguments build {V}. Arguments set_slot {V}. Arguments fill {V}. Arguments make_hashtable {V}.
 Arguments load {V}. Arguments load_map {V}. Arguments run_loads {V}. Arguments key_of {V}. Arguments scan {V}. Arguments get {V}.
 Arguments map_len {V}. Arguments item_at {V}. Arguments enumerate_from {V}. Arguments enumerate {V}.
